@@ -345,8 +345,13 @@ func c18Safely(f func() error) (err error) {
 				lines := strings.Split(st, "\n")
 				for i, l := range lines {
 					if strings.HasPrefix(l, "panic(") && i+2 < len(lines) {
-						if strings.HasPrefix(lines[i+2], "database/sql.") {
-							err = c18NilCtxPanic{where: strings.SplitN(lines[i+2], "(0x", 2)[0]}
+						// only the places where database/sql first touches the context it was given
+						// (ctx.Done() on a nil interface); e.g. (*Row).Scan on a nil row is not one of them
+						fn := strings.SplitN(lines[i+2], "(0x", 2)[0]
+						fn = strings.SplitN(fn, "({", 2)[0]
+						switch fn {
+						case "database/sql.(*DB).conn": // (*Tx).grabConn is left out: a typed-nil *sql.Tx after a failed Begin panics there too
+							err = c18NilCtxPanic{where: fn}
 						}
 						break
 					}
